@@ -17,3 +17,11 @@ import Ymq.Props.C04Shape
 #print axioms Ymq.C04Shape.source_ecm_shape_ok
 #print axioms Ymq.C04Shape.ecm_abort_bounded
 #print axioms Ymq.C04Shape.ecm_unit_length
+#print axioms Ymq.C04Shape.qs_abort_bounded
+#print axioms Ymq.C04Shape.qs_unit_length
+#print axioms Ymq.C04Shape.cg_mt_abort_bounded
+#print axioms Ymq.C04Shape.cg_st_abort_bounded
+#print axioms Ymq.C04Shape.ecm_unit_abort_bounded
+#print axioms Ymq.C04Shape.source_named_ok
+#print axioms Ymq.C04Shape.source_fork_ok
+#print axioms Ymq.C04Shape.source_ecm_unit_ok
